@@ -1168,7 +1168,11 @@ where
                     if read_to.map(|t| t < Tag(0x7fe0, 0x0010)).unwrap_or(false) {
                         break;
                     }
-                    *state = CollectorState::InPixelData;
+                    if !in_item {
+                        // (pixel data nested in a sequence item, such as an icon image,
+                        // is not the pixel data of the object)
+                        *state = CollectorState::InPixelData;
+                    }
                     token_src.advance();
                     let value = Self::build_encapsulated_data(&mut *token_src)?;
                     DataElement::new(Tag(0x7fe0, 0x0010), VR::OB, value)
